@@ -1,6 +1,6 @@
 """C19 — dense-time and discrete-time interpretations agree on grid-aligned step signals."""
 from fractions import Fraction as Fr
-from rtverif import lang, drive
+from rtverif import monitors, lang, drive
 from rtverif import ref_discrete as refd
 from rtverif import ref_dense
 from rtverif.props.base import Prop, Verdict, fmt
@@ -96,7 +96,7 @@ class C19(Prop):
                 other.evaluate(*drive.ct_args(sig, names))
                 dense2 = md.evaluate(*drive.ct_args(sig, names))
                 v.info['class:evaluated-again-after-another-object'] = 1
-                if repr(dense2) != repr(dense):
+                if not monitors.same_num(dense2, dense):
                     v.bad('dense-changes-on-re-evaluation', '%s: the dense-time result changed after another dense-time '
                           'object was evaluated: %s -> %s' % (text, dense[:8], dense2[:8]))
                     return v
